@@ -235,7 +235,7 @@ package file
 //@   ensures err == nil ==> $Flushed
 
 //@ func writeHeader
-//@   property C07
+//@   property C07 C05
 //@   trusted
 //@   effect $HdrWritten := err == nil
 
@@ -254,7 +254,7 @@ package file
 
 // header, then roots, then shares, then the flush: the layout the readers and the size validator expect
 //@ func writeODSFile
-//@   property C07
+//@   property C07 C05
 //@   requires !$Flushed && !$AllWritten && !$HdrWritten && !$RootsWritten
 //@   only os.:
 //@   callpre file.writeAxisRoots: $HdrWritten
